@@ -487,6 +487,16 @@ def gen_random(rng, mode=None):
                 if op[0] in ("try_write", "write", "shutdown", "drop", "drop_w", "drop_r"):
                     est += 1
         body.append({"ctl": ctl, "hosts": hosts})
+    if cfg["mode"] == "remote" and rng.random() < 0.5:
+        # epilogue: release (heals holds and explicit partitions alike), then quiet steps in which both sides read:
+        # nothing may stay on the released link
+        pre = []
+        if held and rng.random() < 0.6:
+            # what was parked under the hold stays parked under an explicit partition of the same link; release frees it
+            pre = [rng.choice([["partition", c, s], ["partition_oneway", c, s], ["partition_oneway", s, c]])]
+        body.append({"ctl": pre + [["release", c, s]], "hosts": {}})
+        for _ in range(6):
+            body.append({"ctl": [], "hosts": {str(c): [["read", CLIENT_SID, 4]], str(s): [["read", SERVER_SID, 4]]}})
     return build_case(cfg, body, "random-" + cfg["mode"])
 
 
